@@ -24,6 +24,12 @@ CHECKS = {
  "C09": dict(cat="model_checking", engine="bfs", technique="explicit-state BFS over operation histories of the real shm stack with byte-pattern, protection and bounded-liveness oracles in every state",
              text="Same state space as C08 with distinct byte patterns really written/read through segments and page-out/page-in round trips; monitors for read-before-close, page-out/unlink during read, delayed purge; in every reachable state a bounded liveness closure (complete jobs, retry) must end in a grant for every satisfiable request.",
              note="Staleness windows unreachable; completion atomicity as C08.", ref="DESIGN.md 3 C09"),
+ "C11": dict(cat="exploration", engine="enumeration", technique="bounded-exhaustive enumeration of all DAGs (n<=4/5) x payload/output/name patterns through every transformation, compared with a symbolic interpreter",
+             text="Every DAG of the family goes through copy, rename (3 maps), dedup (+idempotence, no duplicates left), fuse (3 callbacks, fused payloads unfolded), expand (every consumed node x 5 sub-graph shapes x colliding leaf names x explicit/default maps) and split (4 key functions, re-join along cut edges); sink denotations (names excluded) must be preserved and every input must be an Output of a Node.",
+             note="Single-node sub-graphs outside the expand alphabet; graphs <= 5 nodes.", ref="DESIGN.md 3 C11"),
+ "C12": dict(cat="exploration", engine="enumeration", technique="bounded-exhaustive enumeration of DAGs x payload alphabets through dict/JSON/file round trips with an independent structural comparison",
+             text="Every DAG of the family (terminals with and without outputs, multi-output nodes, empty graph) plus graphs built by fluent programs is serialised and read back as dict, JSON and Cascade file; names, outputs, inputs and payloads are compared structurally and with Graph.__eq__.",
+             note="Unique node names (precondition); JSON path only for JSON-faithful payloads.", ref="DESIGN.md 3 C12"),
  "C16": dict(cat="exploration", engine="enumeration", technique="bounded-exhaustive enumeration of all DAGs (n<=5/6) x 4 variants against a networkx reference model",
              text="Every edge set over <=5 (quick) / <=6 (thorough) labelled tasks in four variants goes through the real precompute() and is compared field by field with a networkx reference (components, sources, edge projections, depth, value, nearest-common-descendant distances).",
              note="Only the Python fallback of nearest_common_descendant is reachable (coptrs not installed); DAGs above 6 tasks outside the bound.", ref="DESIGN.md 3 C16"),
@@ -70,7 +76,7 @@ def main():
              "kind_free_text": "stateless DFS with prefix replay + state-hash pruning over the real controller.run against a reference cluster behind the Bridge interface"},
             {"name": "bfs", "path": "vf/checks", "serves_properties": ["C08", "C09", "C18"],
              "kind_free_text": "explicit-state BFS over operation histories (fresh real objects rebuilt per history, canonical state hashing)"},
-            {"name": "enumeration", "path": "vf/checks", "serves_properties": ["C16", "C17", "C19"],
+            {"name": "enumeration", "path": "vf/checks", "serves_properties": ["C11", "C12", "C16", "C17", "C19"],
              "kind_free_text": "bounded-exhaustive input/program enumeration against a reference model"},
         ],
         "checks": checks,
